@@ -114,6 +114,7 @@ __attribute__((noinline)) tulz::Thread* launch(int path, F f, A&... a) {
     tulz::Thread* t;
     if (path == 0) {
         t = new tulz::Thread();
+        if (t->isFinished()) sim::violation("finished-too-early", "isFinished() is true for a Thread whose callable has not even been started");
         t->start(f, a...);
     } else {
         t = new tulz::Thread(f, a...);
